@@ -355,8 +355,12 @@ LOOP:
 					go func(job *CronJob) {
 						c.run(ctx, job)
 					}(job)
-					c.resetTimer()
 				}
+				// Re-arm the timer for the current head even when
+				// that head is not due yet: the timer may have been
+				// armed for a job that has since been removed, and
+				// nothing else would start it again.
+				c.resetTimer()
 			}
 			c.Unlock()
 			// elapsed := time.Now().Sub(now)
